@@ -832,3 +832,12 @@ package commands
 //@   loop 1 invariant forall_int(k, t.Entries[k], 0 <= k && k <= rangeindex ==> t.Entries[k].Name != name)
 //@   ensures @C12 result >= 0 ==> result < len(t.Entries) && t.Entries[result].Name == name
 //@   ensures @C12 result < 0 ==> result == -1 && forall_int(k, t.Entries[k], 0 <= k && k < len(t.Entries) ==> t.Entries[k].Name != name)
+
+// C04: an --include / --exclude given on the command line overrides the
+// configured lfs.fetchinclude / lfs.fetchexclude whatever its value - an empty
+// one too ("-X ''" means: exclude nothing): the argument handed on is non-nil
+// exactly when the flag was given.
+//@ func getIncludeExcludeArgs
+//@   props C04
+//@   requires @inv cmd != nil
+//@   ensures @C04 defined(includeFlag) && defined(excludeFlag) ==> (includeFlag.Changed == (result0 != nil)) && (excludeFlag.Changed == (result1 != nil))
